@@ -17,6 +17,19 @@ Definition s_new : name := [110; 101; 119]%N.
 Definition s_cur : name := [99; 117; 114]%N.
 Definition s_tmp : name := [116; 109; 112]%N.
 
+(* FilesystemLayout._reserved: new cur tmp maildirfolder dovecot-uidlist
+   dovecot-uidlist.lock dovecot-keywords dovecot.sieve subscriptions
+   subscriptions.lock *)
+Definition fs_reserved : list name :=
+  [ s_new; s_cur; s_tmp;
+    [109;97;105;108;100;105;114;102;111;108;100;101;114];
+    [100;111;118;101;99;111;116;45;117;105;100;108;105;115;116];
+    [100;111;118;101;99;111;116;45;117;105;100;108;105;115;116;46;108;111;99;107];
+    [100;111;118;101;99;111;116;45;107;101;121;119;111;114;100;115];
+    [100;111;118;101;99;111;116;46;115;105;101;118;101];
+    [115;117;98;115;99;114;105;112;116;105;111;110;115];
+    [115;117;98;115;99;114;105;112;116;105;111;110;115;46;108;111;99;107] ]%N.
+
 (* _BaseLayout._valid_part and the two overrides *)
 Definition valid_part_base (p : name) : bool :=
   negb (name_eqb p [] || name_eqb p s_dot || name_eqb p s_dotdot)
@@ -26,7 +39,7 @@ Definition valid_part_base (p : name) : bool :=
 Definition valid_part (l : layout) (p : name) : bool :=
   match l with
   | LPlus => negb (existsb (fun c => (c =? DOT)%N) p) && valid_part_base p
-  | LFs => negb (name_eqb p s_new || name_eqb p s_cur || name_eqb p s_tmp) && valid_part_base p
+  | LFs => negb (mem_name p fs_reserved) && valid_part_base p
   end.
 
 (* _BaseLayout._split: None = NotSupportedError('Invalid mailbox name.') *)
